@@ -347,7 +347,7 @@ impl RandGen {
         let wb = self.cfg.weak_bias;
         let cb = self.cfg.consume_bias;
         // weighted menu
-        let menu: [(u32, u8); 23] = [
+        let menu: [(u32, u8); 24] = [
             (if alive.len() < self.cfg.max_objs { 7 } else { 0 }, 0), // new
             (6, 1),                                                   // clone
             (9, 2),                                                   // drop
@@ -371,6 +371,7 @@ impl RandGen {
             (if self.adopts_allowed() && class != Class::Full { 1 } else { 0 }, 20), // same-handle self adoption
             (3, 21),                                                  // upgrade + immediate drop (probe)
             (if self.adopts_allowed() { 4 } else { 0 }, 22),         // link 2-4 objects into a fully recorded ring
+            (cb, 23),                                                 // make_mut in place on a stored handle
         ];
         let total: u32 = menu.iter().map(|m| m.0).sum();
         let mut r = (self.rng.next() % total as u64) as u32;
@@ -611,6 +612,27 @@ impl RandGen {
                     self.pending.push_back(o);
                 }
                 Some(first)
+            }
+            23 => {
+                let owners: Vec<ObjId> = alive.iter().copied().filter(|&o| !w.objs[o as usize].held.is_empty() && reach[o as usize]).collect();
+                let &o = self.rng.pick(&owners)?;
+                let k = self.rng.below(w.objs[o as usize].held.len());
+                let t = w.objs[o as usize].held[k];
+                if w.objs[t as usize].state != St::Alive {
+                    return None;
+                }
+                let will_clone = w.strong(t) != 1;
+                if will_clone && class != Class::Elide && total_rec(w, o, t) > held_count(w, o, t) - 1 {
+                    // the stored handle will point to a new object afterwards: its record must go first
+                    if t == o && w.objs[o as usize].looprec > 0 {
+                        return None;
+                    }
+                    let cands: Vec<HRef> = all_hrefs(w).into_iter().filter(|(h, tt)| *tt == o && *h != HRef::S(o, k)).map(|(h, _)| h).collect();
+                    let &this = self.rng.pick(&cands)?;
+                    self.pending.push_back(Op::MakeMutIn(o, k));
+                    return Some(Op::Unadopt(this, HRef::S(o, k)));
+                }
+                Some(Op::MakeMutIn(o, k))
             }
             _ => {
                 let ws = all_wrefs(w);
@@ -910,6 +932,8 @@ pub enum ScriptMode {
     Panic,
     DeadClone,
     DeadDrop,
+    /// destructors create Weak handles from their own stored handles and let them escape (C05)
+    WeakEscape,
 }
 
 fn split_build_and_drops(ops: Vec<Op>) -> (Vec<Op>, Vec<Op>) {
@@ -986,7 +1010,7 @@ fn stored_targets(ops: &[Op], n_total: usize) -> Vec<Vec<usize>> {
 
 pub fn script_ops(idx: u64, seed: u64, mode: ScriptMode) -> (Vec<Op>, String) {
     let mut rng = Rng::new(crate::rng::mix(seed ^ 0x5C21, idx));
-    let full = matches!(mode, ScriptMode::DeadClone | ScriptMode::DeadDrop) || rng.chance(1, 2);
+    let full = matches!(mode, ScriptMode::DeadClone | ScriptMode::DeadDrop) || rng.chance(1, 2) || (mode == ScriptMode::WeakEscape && rng.chance(2, 3));
     let (mut build, drops, n, bdesc) = base_shape(&mut rng, idx, seed, full);
     let (mut hslots, mut wslots) = count_slots(&build);
     let mut desc = bdesc;
@@ -1077,6 +1101,20 @@ pub fn script_ops(idx: u64, seed: u64, mode: ScriptMode) -> (Vec<Op>, String) {
             }
             build.push(Op::Script(a as ObjId, when, Box::new(Op::Panic)));
             desc = format!("panic in #{} {:?} {}", a, when, desc);
+        }
+        ScriptMode::WeakEscape => {
+            let held = stored_targets(&build, n);
+            let mut nact = 0;
+            for a in 0..n {
+                for k in 0..held[a].len() {
+                    if rng.chance(1, 2) {
+                        let when = if rng.chance(1, 2) { When::Pre } else { When::Post };
+                        build.push(Op::Script(a as ObjId, when, Box::new(Op::DowngradeOwn(k))));
+                        nact += 1;
+                    }
+                }
+            }
+            desc = format!("weak-escape {} actions={}", desc, nact);
         }
         ScriptMode::DeadClone | ScriptMode::DeadDrop => {
             let held = stored_targets(&build, n);
